@@ -96,7 +96,7 @@ def main():
         for t in touched:
             tmod = "cmd/application" if t.startswith("cmd/application") else ("cmd/registration-server" if t.startswith("cmd/registration-server") else "")
             trel = "./" + os.path.relpath(t, tmod or ".")
-            rc, out = sh("go test -vet=off -count=1 -skip 'TestSeedDemo|TestConjureLibConfigResolveBlocklisted|TestConcurrentProxy|TestZMQ|TestZmq' %s" % trel, os.path.join(wt, tmod))
+            rc, out = sh("go test -vet=off -count=1 -skip 'TestSeed|TestConjureLibConfigResolveBlocklisted|TestConcurrentProxy|TestZMQ|TestZmq' %s" % trel, os.path.join(wt, tmod))
             if rc:
                 ok_existing = False
                 notes.append("%s: %s" % (t, out[-600:]))
